@@ -74,6 +74,7 @@ def run(ctx):
     su = setters(u)
     ctx.ob("P2.DELETE/COMPACT", "update_cell_value_shrink", "frag_bytes" in su, "accounts the freed bytes in frag_bytes" if "frag_bytes" in su else
            "update_cell_value_shrink frees bytes without accounting them", u.loc())
+    leaf_chain_splice(ctx)
 
 
 def count_delta(f, delta):
@@ -103,3 +104,40 @@ def count_delta(f, delta):
                 break
             local = q[0]
     return False
+
+
+def leaf_chain_splice(ctx):
+    """P5 LEAF-CHAIN-SPLICE: split_leaf inserts the new leaf into the singly linked leaf chain: the old leaf's successor is read,
+    the old leaf is pointed at the new page, and the new leaf is pointed at the old successor — on every success path.  Dropping
+    either store loses every leaf behind the split from cursor scans, or makes the chain skip the new leaf."""
+    from paths import must_pass, describe_path, source_call
+    m = ctx.m
+    fs = [f for f in m.fns.values() if f.kind != "closure" and f.id.startswith("btree::tree::BTree::") and f.id.endswith("::split_leaf")]
+    if len(fs) != 1:
+        raise CheckError("split_leaf: %d candidates" % len(fs))
+    f = fs[0]
+    sets = [c for c in f.calls if c.name.endswith("LeafNodeMut::<'a>::set_next_leaf")]
+    gets = [c for c in f.calls if c.name.rsplit("::", 1)[-1] == "next_leaf"]
+    from_old = []   # set_next_leaf(value read by next_leaf())
+    to_new = []     # set_next_leaf(value that is not read from a next pointer: the freshly allocated page number)
+    for c in sets:
+        pl = operand_place(c.args[1]) if len(c.args) > 1 else None
+        src = source_call(f, pl[0]) if pl is not None and not pl[1] else None
+        # chase a local that was assigned from next_leaf() earlier (old_next_leaf = leaf.next_leaf())
+        dep = False
+        if pl is not None:
+            import dmlrules
+            dep = bool(dmlrules._deps(f, pl[0]) & {g.dest[0] for g in gets if g.dest is not None})
+        (from_old if dep else to_new).append(c)
+    ok_shape = len(from_old) >= 1 and len(to_new) >= 1 and bool(gets)
+    ok_paths = False
+    esc = []
+    if ok_shape:
+        o1, e1, _ = must_pass(f, lambda c: c in from_old, [])
+        o2, e2, _ = must_pass(f, lambda c: c in to_new, [])
+        ok_paths = o1 and o2
+        esc = e1 or e2
+    ctx.ob("P5.LEAF-CHAIN-SPLICE", "split_leaf", ok_shape and ok_paths,
+           "old.next := new page and new.next := old successor on every success path" if ok_shape and ok_paths else
+           ("split_leaf does not splice the new leaf into the leaf chain on every success path (%d store(s) of the old successor, %d store(s) of "
+            "the new page%s): cursor scans lose or skip leaves" % (len(from_old), len(to_new), "; " + describe_path(f, esc[0]) if esc else "")), f.loc())
